@@ -429,3 +429,144 @@ Theorem C03_hashset_first_insert_params_orphaned_refuted :
     (let '(_, s') := first_insert_scn 1 64 16 24 true (-1, 0) (rows_init sch) in blocks s' = []).
 Proof. exact Effects4Proofs.first_insert_params_orphaned_refuted. Qed.
 Print Assumptions C03_hashset_first_insert_params_orphaned_refuted.
+
+(* ================= part 5 (Pointwise.v, Effects5.v): pointwise block accounting; SegmentedArray with its pointer array ====== *)
+From C03 Require Pointwise Effects5 Effects5Proofs.
+Import Pointwise Effects5 Effects5Proofs.
+
+(* State summaries in which the live blocks are a FUNCTION id -> option (manager, size) ([st2]) instead of an exact list, so
+   blocks may be returned in any order.  SegmentedArray owns its segments AND the Array<Segment*> pointer array mSegments;
+   pvIncCapacity does mSegments.Reserve(segCount + 1) - which may allocate a bigger pointer array (and fail) and frees the old one
+   while older segments are still live - then allocates the segment.  [sa2_inv st s nb]: the object st owns exactly its
+   segments (each with its own item count) and its current pointer array, all distinct.
+   AddBack with growth, n times, from any well-formed object, every schedule: the object stays well-formed. *)
+Theorem C03_segmentedarray_addback_growth_with_pointer_array :
+  forall mgr segsz psz segcapf pgrow f g0 nb0 src,
+    (forall l, nb0 <= fst l -> f l = false) -> (forall b, nb0 <= b -> g0 b = None) -> (forall x, 0 <= x -> f (src, x) = true) ->
+    forall n i st s nb, 0 <= i -> sa2_inv mgr segsz psz f g0 nb0 st s nb ->
+    match sa2_fill mgr segsz psz segcapf pgrow src i n st s with
+    | ((_, Stuck), _) => False
+    | ((st', _), s') => exists nb', sa2_inv mgr segsz psz f g0 nb0 st' s' nb'
+    end.
+Proof. exact Effects5Proofs.sa2_addback_growth_post. Qed.
+Print Assumptions C03_segmentedarray_addback_growth_with_pointer_array.
+
+(* destruction: pvDecCount(0); pvDecCapacity(0) release every item and every segment exactly once, the pointer array stays ... *)
+Theorem C03_segmentedarray_clear_segments :
+  forall mgr segsz psz f g0 nb0,
+    (forall l, nb0 <= fst l -> f l = false) -> (forall b, nb0 <= b -> g0 b = None) ->
+    forall st s nb, sa2_inv mgr segsz psz f g0 nb0 st s nb ->
+    post (sa2_clear_segs mgr segsz st) s (fun _ s' => sa2_inv mgr segsz psz f g0 nb0 (mkS [] None (s_ptr st)) s' nb) (fun _ => False).
+Proof. exact Effects5Proofs.sa2_clear_segs_post. Qed.
+Print Assumptions C03_segmentedarray_clear_segments.
+
+(* ... and ~mSegments returns it: nothing of the object is left *)
+Theorem C03_segmentedarray_pointer_array_released :
+  forall mgr segsz psz f g0 nb0,
+    (forall b, nb0 <= b -> g0 b = None) ->
+    forall st s nb, sa2_inv mgr segsz psz f g0 nb0 st s nb -> s_olds st = [] -> s_cur st = None ->
+    post (sa2_free_ptr mgr psz st) s (fun _ s' => st2 s' f g0 nb) (fun _ => False).
+Proof. exact Effects5Proofs.sa2_free_ptr_post. Qed.
+Print Assumptions C03_segmentedarray_pointer_array_released.
+
+(* the range constructor with the pointer array, the catch block, ~SegmentedArray and ~mSegments: every schedule (segment
+   allocations, POINTER ARRAY allocations, item copies), any segment capacities, any pointer-array growth policy *)
+Theorem C03_segmentedarray_range_ctor_with_pointer_array_no_leak :
+  forall mgr segsz psz segcapf pgrow src n s f g0,
+    pw_world s f g0 src ->
+    post (sa2_ctor_then_destroy mgr segsz psz segcapf pgrow src n) s
+         (fun _ s' => st2 s' f g0 (nextb s')) (fun s' => st2 s' f g0 (nextb s')).
+Proof. exact Effects5Proofs.sa2_ctor_then_destroy_post. Qed.
+Print Assumptions C03_segmentedarray_range_ctor_with_pointer_array_no_leak.
+
+Theorem C03_segmentedarray_with_pointer_array_any_schedule :
+  forall mgr segsz psz segcapf pgrow n sch,
+    post (sa2_ctor_then_destroy mgr segsz psz segcapf pgrow (-1) n) (rows_init sch)
+         (fun _ s' => back_to_start s') (fun s' => back_to_start s').
+Proof. exact Effects5Proofs.sa2_ctor_any_schedule. Qed.
+Print Assumptions C03_segmentedarray_with_pointer_array_any_schedule.
+
+(* ================= part 6 (Effects6.v): MemPool cache across MergeFrom, DataTable crew, allocator migration ================= *)
+From C03 Require Effects6 Effects6Proofs.
+Import Effects6 Effects6Proofs.
+
+(* MemPool::MergeFrom with the free-block cache (blocks live inside buffers; freed blocks wait in the pool's cache): as it is -
+   the SOURCE's cache is flushed before its buffers are spliced into the destination - the source afterwards holds no cached
+   block, no free block and no buffer; every buffer it owned, hence every block of a moved buffer, belongs to the destination;
+   every formerly cached or free block of the source is a free block of the destination; both pools stay well-formed
+   ([pool_wf]: every cached / free block lies in a buffer the pool owns) *)
+Theorem C03_mempool_merge_source_cache_flushed :
+  forall dst src, pool_wf dst -> pool_wf src ->
+    let '(dst', src') := pool_merge_from true dst src in
+    p_cache src' = [] /\ p_free src' = [] /\ p_bufs src' = [] /\
+    (forall b, In b (p_bufs src) -> In b (p_bufs dst')) /\ (forall b, In b (p_bufs dst) -> In b (p_bufs dst')) /\
+    (forall blk, In blk (p_cache src ++ p_free src) -> In blk (p_free dst')) /\
+    pool_wf dst' /\ pool_wf src'.
+Proof. exact Effects6Proofs.merge_from_source_emptied. Qed.
+Print Assumptions C03_mempool_merge_source_cache_flushed.
+
+(* a well-formed pool only hands out blocks of buffers it owns *)
+Theorem C03_mempool_allocate_from_owned_buffer :
+  forall mgr bufsz bc p s, pool_wf p ->
+    match pool_allocate mgr bufsz bc p s with
+    | (((p', blk), Val _), _) => pool_wf p' /\ In (fst blk) (p_bufs p')
+    | (((p', _), _), _) => pool_wf p'
+    end.
+Proof. exact Effects6Proofs.pool_allocate_wf. Qed.
+Print Assumptions C03_mempool_allocate_from_owned_buffer.
+
+(* seeded change C03/b (the DESTINATION's cache is flushed instead): the source keeps cached blocks of buffers it no longer owns *)
+Theorem C03_mempool_merge_wrong_flush_refuted :
+  exists dst src, pool_wf dst /\ pool_wf src /\ ~ pool_wf (snd (pool_merge_from false dst src)).
+Proof. exact Effects6Proofs.merge_from_wrong_flush_refuted. Qed.
+Print Assumptions C03_mempool_merge_wrong_flush_refuted.
+
+(* ... and the scenario of that change executed on the machine: source frees blocks (cached), merge, source refilled, destination
+   destroyed first, source reads its block: Stuck (use of a freed buffer) with the wrong flush, clean as it is *)
+Theorem C03_mempool_merge_refill_use_after_free_refuted :
+  exists (a : nat) (sch : list bool),
+    is_stuck (merge_refill_scn 1 114 2 16 false a (init_state (-1) 0 sch)) = true /\
+    (let '(o, s') := merge_refill_scn 1 114 2 16 true a (init_state (-1) 0 sch) in
+     is_stuck (o, s') = false /\ blocks s' = []).
+Proof. exact Effects6Proofs.merge_refill_use_after_free_refuted. Qed.
+Print Assumptions C03_mempool_merge_refill_use_after_free_refuted.
+
+(* DataTable crew lifecycle (Crew with the free-raw stack), single-threaded resource view: any history of NewRow / Add / Extract /
+   ~Row (the raw is pushed on the crew's stack, not freed) / pvDeallocateFreeRaws, every schedule, then the rows still held die and
+   ~DataTable: a raw disposed by a row object is reclaimed exactly once, by the owning table; the crew is released once.  The
+   lock-free push / pop interleavings are C19's. *)
+Theorem C03_datatable_crew_free_raws_reclaimed_once :
+  forall mgr rsz crewsz ops s f g0,
+    st2 s f g0 (nextb s) -> (forall b, nextb s <= b -> g0 b = None) ->
+    post (dt_history mgr rsz crewsz ops) s (fun _ s' => st2 s' f g0 (nextb s')) (fun s' => st2 s' f g0 (nextb s')).
+Proof. exact Effects6Proofs.dt_history_post. Qed.
+Print Assumptions C03_datatable_crew_free_raws_reclaimed_once.
+
+Theorem C03_datatable_crew_any_history_any_schedule :
+  forall mgr rsz crewsz ops sch,
+    post (dt_history mgr rsz crewsz ops) (init_state (-1) 0 sch) (fun _ s' => blocks s' = []) (fun s' => blocks s' = []).
+Proof. exact Effects6Proofs.dt_history_any_schedule. Qed.
+Print Assumptions C03_datatable_crew_any_history_any_schedule.
+
+(* stdish containers under UNEQUAL allocators (element-wise migration): every element is move-constructed into storage taken from
+   the TARGET's allocator B; on success the source releases its elements and its storage through ITS allocator A, on a failed
+   allocation the partial target goes back through B; with both containers destroyed afterwards, for every schedule: never
+   Stuck (in particular no block is ever returned through an allocator that did not allocate it), every source element is
+   destroyed exactly once, and what is left is the rest of the world with the source's storage returned *)
+Theorem C03_stdish_migration_unequal_allocators_no_leak :
+  forall mgrA mgrB nsz f0 g0 nb0 srcs,
+    (forall l, nb0 <= fst l -> f0 l = false) -> (forall b, nb0 <= b -> g0 b = None) ->
+    (forall b, In b srcs -> b < nb0) -> NoDup srcs -> (forall b, In b srcs -> f0 (b, 0) = false) ->
+    forall s nb, st2 s (wf_cells f0 srcs) (wg mgrA nsz g0 srcs) nb -> nb0 <= nb ->
+    post (migrate_then_destroy mgrA mgrB nsz srcs) s
+         (fun _ s' => exists nb', st2 s' f0 (wg_end g0 srcs) nb') (fun s' => exists nb', st2 s' f0 (wg_end g0 srcs) nb').
+Proof. exact Effects6Proofs.migrate_then_destroy_post. Qed.
+Print Assumptions C03_stdish_migration_unequal_allocators_no_leak.
+
+(* returning the source's storage through the TARGET's allocator is Stuck (wrong manager) *)
+Theorem C03_stdish_migration_wrong_allocator_refuted :
+  is_stuck (migrate_wrong_allocator 2 16 [1; 0]
+              (mkR (fun l => if Z.eqb (snd l) 0 && (Z.eqb (fst l) 0 || Z.eqb (fst l) 1) then Live 5 else Raw)
+                   [(1, (1, 16)); (0, (1, 16))] [] 2 [])) = true.
+Proof. exact Effects6Proofs.migrate_wrong_allocator_refuted. Qed.
+Print Assumptions C03_stdish_migration_wrong_allocator_refuted.
